@@ -18,7 +18,12 @@ RULE = ("correspondence: random windows (start before/at/after planting, 1-4 sea
 
 def suites(ctx):
     n = 140 if ctx["tier"] == "quick" else 1500
-    return [l1.run_suite("clock", clock_suite.gen, n, unit="clock")]
+    from suites import calendar_ as cal
+    out = [l1.run_suite("clock", clock_suite.gen, n, unit="clock"),
+           l1.run_suite("calendar", cal.gen, 4000 if ctx["tier"] == "quick" else 40000, seed_names=("C07",), unit="calendar")]
+    if ctx["tier"] != "quick":     # exhaustive over pandas' Timestamp range (213 503 days) + samples of datetime's range
+        out.append(l1.run_suite("calendar_dates", cal.gen_dates, 20000, unit="calendar"))
+    return out
 
 
 def monitor(ctx):
